@@ -22,6 +22,17 @@ PUNCT = ['(', ')', '{', '}', '[', ']', ';', ',', '.', ':', '?', '|', '||', '&&',
 LITERALS = ['0', '1', '255', '256', '65535', '65536', '1e309', '0.5', '1.', '.5', '"s"', "'s'", '"${1}"', '"a${"b"}c"',
             '"\\u{41}"', '"\\q"', '"unterminated', 'x', 'y', 'Error', 'é', '日本', '😀', '_', 'a?']
 POOL = KEYWORDS + PUNCT + LITERALS
+# complete statements that are only legal in some contexts (loop, function, method, module level); transplanted to
+# arbitrary statement boundaries they exercise every context check the parser/resolver/compiler share
+STMTS = ['break;', 'continue;', 'return 1;', 'return;', 'self.q;', 'self;', 'super.m();', 'super.init();',
+         'export let q__ = 1;', 'export fn q__() {}', 'export class Q__ {}', 'import std.math;', 'raise Error("t");',
+         'let f__ = || { break; };', 'let f__ = || { continue; };', 'let f__ = |a| { return a; };', 'let f__ = || self;',
+         'let f__ = || super.m();', 'fn f__() { break; }', 'fn f__() { continue; }', 'fn f__() { return self; }',
+         'while false { let f__ = || { break; }; }', 'for i__ in [1] { let f__ = || { continue; }; f__(); }',
+         'class K__ { m() { break; } }', 'class K__ { static s() { return self; } }', 'class K__ : K__ {}',
+         'let q__ = q__;', 'let self = 1;', 'let super = 1;', 'try { break; } catch e__: Error { continue; }',
+         'launch q__();', 'return 1; print(2);', 'init();', 'static;', 'export export let q__ = 1;']
+MULTIBYTE = ['é', 'ß', 'α', '日', '本', '😀', '\u0301', '\u200b', '\ufeff', '\u2028']
 
 
 def tokenize(text):
@@ -43,8 +54,20 @@ def mutate(text, rng):
             if not sig:
                 break
             i = rng.choice(sig)
-            op = rng.choice(['del', 'dup', 'swap', 'rep', 'ins', 'rep_kw', 'del_range'])
+            op = rng.choice(['del', 'dup', 'swap', 'rep', 'ins', 'rep_kw', 'del_range', 'ins_stmt', 'uni'])
             ops.append(op)
+            if op == 'ins_stmt':
+                bounds = [k for k in sig if toks[k] in ('{', ';', '}')]
+                k = rng.choice(bounds) + 1 if bounds else 0
+                toks.insert(k, ' ' + rng.choice(STMTS) + ' ')
+                continue
+            if op == 'uni':
+                # a multi-byte character inside a token (string bodies, escapes, numbers, identifiers, comments)
+                t = toks[i]
+                k = rng.randrange(len(t) + 1)
+                ch = rng.choice(MULTIBYTE)
+                toks[i] = t[:k] + ch + (t[k + 1:] if rng.random() < 0.5 else t[k:])
+                continue
             if op == 'del':
                 del toks[i]
             elif op == 'dup':
@@ -162,6 +185,18 @@ def boundary_inputs():
     out['big_loop'] = 'fn f() {\n  let x = 0;\n  let i = 0;\n  while i < 1 {\n    i = i + 1;\n' + '    x = x + 1;\n' * 9000 + '  }\n  return x;\n}\nprint(f());\n'
     out['big_try'] = 'fn f() {\n  let x = 0;\n  try {\n' + '    x = x + 1;\n' * 9000 + '  raise Error("e");\n  } catch e: Error { return x; }\n  return 0;\n}\nprint(f());\n'
     out['big_and'] = 'fn f(c) { return c && (' + ' + '.join('1' for _ in range(25000)) + '); }\nprint(f(true));\n'
+    for n in (254, 255, 256, 300, 600):
+        out['block_locals_%d' % n] = ('fn f() {\nif true {\n' + ''.join('let a%d = %d;\n' % (i, i) for i in range(n)) +
+                                      '}\nreturn 1;\n}\nprint(f());')
+        out['loop_locals_%d' % n] = ('fn f() {\nwhile true {\n' + ''.join('let a%d = %d;\n' % (i, i) for i in range(n)) +
+                                     'break;\n}\nreturn 1;\n}\nprint(f());')
+    # escape zoo: every escape introducer x payload (ascii hex, ascii non-hex, 2/3/4-byte characters, mixtures) x closer
+    k = 0
+    for opener in ('"\\u{', "'\\u{", '"a${"\\u{', '"\\u', '"\\x', '"\\'):
+        for payload in ('41', '', 'zz', 'é', '日', '😀', '4é', 'é4', '41é', '0000000041', '1F600', '😀😀😀😀😀😀😀', 'α}β', ' 41 '):
+            for closer in ('}"', '"', '}', '', "}'"):
+                out['escape_zoo_%d' % k] = 'print(1);\nprint(' + opener + payload + closer + ');\nprint(2);'
+                k += 1
     for name, text in [('unterminated_interp', 'print("a${");'), ('unterminated_interp2', 'print("a${"b${'),
                        ('unterminated_str', 'print("abc'), ('nul_bytes', 'print(1);\x00\x00print(2);'),
                        ('bom', '﻿print(1);'), ('invalid_escape', 'print("\\q");'),
